@@ -73,6 +73,10 @@ func deepCopy(v reflect.Value) reflect.Value {
 		for i := 0; i < v.NumField(); i++ {
 			gen.Exported(out.Field(i)).Set(deepCopy(v.Field(i)))
 		}
+	case reflect.Interface:
+		if !v.IsNil() {
+			out.Set(deepCopy(v.Elem()))
+		}
 	default:
 		out.Set(v)
 	}
@@ -160,6 +164,17 @@ func strictSame(a, b reflect.Value, path string) string {
 		if a.String() != b.String() {
 			return diff()
 		}
+	case reflect.Interface:
+		if a.IsNil() != b.IsNil() {
+			return diff()
+		}
+		if a.IsNil() {
+			return ""
+		}
+		if a.Elem().Type() != b.Elem().Type() {
+			return fmt.Sprintf("%s: held a %v, holds a %v", path, a.Elem().Type(), b.Elem().Type())
+		}
+		return strictSame(a.Elem(), b.Elem(), path+"()")
 	default:
 		return path + ": cannot compare kind " + a.Kind().String()
 	}
@@ -239,6 +254,7 @@ type expectation struct {
 	listMerges map[string]bool
 	classes    map[string]bool
 	sep        string // path separator of the call: field names are split by it
+	types      map[*gen.TD]reflect.Type
 }
 
 func newExpectation(sep string) *expectation {
@@ -341,6 +357,8 @@ func (x *expectation) merge(t *gen.TD, pol string, old reflect.Value, s *gen.Tre
 	sh := t.Shape()
 	out := newElem(typ)
 	switch sh.Kind {
+	case "iface":
+		return x.iface(sh, pol, old, s, got, path)
 	case "ptr":
 		oldE := newElem(typ.Elem())
 		if !old.IsNil() {
@@ -352,7 +370,7 @@ func (x *expectation) merge(t *gen.TD, pol string, old reflect.Value, s *gen.Tre
 			gotE = got.Elem()
 		}
 		w, err := x.merge(sh.Elem, pol, oldE, s, gotE, path+"*")
-		if err != nil {
+		if err != nil || x.outside {
 			return invalid, err
 		}
 		p := reflect.New(typ.Elem())
@@ -627,8 +645,16 @@ func typeFeatures(t *gen.TD, seen map[string]bool) {
 	}
 	sh := t.Shape()
 	switch sh.Kind {
+	case "iface":
+		seen["interface{} place"] = true
+		if sh.Elem != nil {
+			typeFeatures(sh.Elem, seen)
+		}
 	case "ptr", "slice", "array", "map":
 		seen[sh.Kind] = true
+		if sh.Elem.Kind == "iface" {
+			seen[sh.Kind+" of interface{}"] = true
+		}
 		typeFeatures(sh.Elem, seen)
 	case "regexp":
 		seen["regexp"] = true
